@@ -8,10 +8,13 @@ VSYS = "github.com/panjf2000/gnet/v2/pkg/verifsys"
 
 PLAN = [
     ("eventloop_unix.go", "unix.Read,unix.Write,unix.Close,unix.Recvfrom,io.Writev,socket.Dup,"
-     "entry:register0:c.fd,entry:open:c.fd,entry:read:c.fd,entry:write:c.fd,entry:close:c.fd;err == nil,"
-     "entry:wake:c.fd,entry:read0:a.(*conn).fd,entry:write0:a.(*conn).fd,entry:readUDP:fd,entry:closeConns"),
-    ("connection_unix.go", "unix.Write,unix.Send,unix.Sendto,io.Writev,socket.Dup,entry:asyncWrite:c.fd,entry:asyncWritev:c.fd"),
-    ("connection_linux.go", "entry:processIO:c.fd;ev"),
+     # the last value of an entry, verifsys.Ptr(conn), is the identity of the connection object: the driver uses it to tell
+     # the stale handle of a closed connection from a newer connection that got the same descriptor number, and strips it
+     "entry:register0:c.fd;verifsys.Ptr(c),entry:open:c.fd;verifsys.Ptr(c),entry:read:c.fd;verifsys.Ptr(c),entry:write:c.fd;verifsys.Ptr(c),"
+     "entry:close:c.fd;err == nil;verifsys.Ptr(c),"
+     "entry:wake:c.fd;verifsys.Ptr(c),entry:read0:a.(*conn).fd;verifsys.Ptr(a),entry:write0:a.(*conn).fd;verifsys.Ptr(a),entry:readUDP:fd,entry:closeConns"),
+    ("connection_unix.go", "unix.Write,unix.Send,unix.Sendto,io.Writev,socket.Dup,entry:asyncWrite:c.fd;verifsys.Ptr(c),entry:asyncWritev:c.fd;verifsys.Ptr(c)"),
+    ("connection_linux.go", "entry:processIO:c.fd;ev;verifsys.Ptr(c)"),
     ("acceptor_unix.go", "socket.Accept,unix.Close,entry:accept:fd,entry:accept0:fd"),
 ]
 
